@@ -16,7 +16,7 @@ Definition txhdr_eqb (a b : txhdr) : bool :=
 
 (* ---------------- PostgreSQL wire messages ---------------- *)
 (* switch to true when fixes/C16-pgsql-bind-param-length.diff is committed in /repo *)
-Definition pg_bind_is_fixed : bool := false.
+Definition pg_bind_is_fixed : bool := true.
 
 Definition z_eqb := Z.eqb.
 (* a parameter value is compared as (bytes without trailing zeroes, total length) *)
@@ -61,7 +61,7 @@ Definition frame_eqb (a b : N * bytes * bytes) : bool :=
 
 (* ---------------- pkg/stream receivers ---------------- *)
 (* switch to true when fixes/C16-stream-message-length.diff is committed in /repo *)
-Definition stream_is_fixed : bool := false.
+Definition stream_is_fixed : bool := true.
 
 (* one step of the loop a stream handler runs on a msgReceiver: the byte strings it obtains *)
 Definition st_step := mrecv -> M (list bytes * mrecv).
@@ -108,8 +108,8 @@ Definition items_eqb := list_eqb (list_eqb bytes_eqb).
 (* ---------------- open-time parsing of tbtree / ahtree ---------------- *)
 (* switch to true when fixes/C16-tbtree-open-validation.diff resp.
    fixes/C16-ahtree-clog-entry-bounds.diff are committed in /repo *)
-Definition tbtree_open_is_fixed : bool := false.
-Definition ahtree_open_is_fixed : bool := false.
+Definition tbtree_open_is_fixed : bool := true.
+Definition ahtree_open_is_fixed : bool := true.
 
 Definition clog_entry_eqb (a b : clog_entry) : bool :=
   Bool.eqb (ce_synced a) (ce_synced b) && Z.eqb (ce_inl a) (ce_inl b) && Z.eqb (ce_fnl a) (ce_fnl b) &&
